@@ -26,8 +26,9 @@ func main() {
 	req := flag.String("req", "", "Coq command importing the generated module, e.g. 'From T Require Import Gen_g0.'")
 	seed := flag.Uint64("seed", 1, "PRNG seed")
 	n := flag.Int("n", 2000, "cases per function")
+	groups := flag.Int("groups", 1, "number of Check_<k>.v files to spread the functions over")
 	flag.Parse()
-	hs := map[string]func(string, string, uint64, int) error{
+	hs := map[string]func(string, string, uint64, int, int) error{
 		"g0":       g0.Go2coqHarness,
 		"files":    rfiles.Go2coqHarness,
 		"uio":      ruio.Go2coqHarness,
@@ -41,7 +42,7 @@ func main() {
 		flag.Usage()
 		os.Exit(2)
 	}
-	if err := h(*dir, *req, *seed, *n); err != nil {
+	if err := h(*dir, *req, *seed, *n, *groups); err != nil {
 		fmt.Fprintln(os.Stderr, "harness:", err)
 		os.Exit(1)
 	}
